@@ -39,4 +39,11 @@ var props = map[string]propCfg{
 		},
 		NotDecided: []string{"termination of the recursive-descent parser and of type inference (two known non-terminating inputs, DESIGN §6)"},
 	},
+	"C15": {
+		Modules: []string{"fc"},
+		Decided: []string{
+			"printer half: FTypeToGo and its helpers (funcTypeToGo, fSliceToGo, fTupleToGo, fpToGo, recordTypeToGo, fUnionToGo, tArgsToGo, fargs, freturn) equal the documented type mapping go_type (specs/types.spec) for every FType value",
+		},
+		NotDecided: []string{"parser half: that parseType and friends build the FType the documented grammar prescribes (precedence of [] over *, -> nesting only through parentheses) is not decided", "package qualification of external type names (GenType / piRegEType)"},
+	},
 }
